@@ -12,6 +12,9 @@ import (
 
 func init() { vh.Register("C07", isolated("C07", runC07)) }
 
+// the one remaining gap around list requests (they panicked before fix 985f10a): rejected with a positioned error
+const sigListRequest = "C07 documented language not accepted: listRequest on a service method or entity query"
+
 const mainFile = "foo/v1/a.j5s"
 const mainProto = "foo/v1/a.j5s.proto"
 
@@ -52,9 +55,6 @@ func (p propT) knownGap() string {
 	t := p.Shape.Item
 	if t.Kind == "float" && t.Rules {
 		return "float rules"
-	}
-	if t.Kind == "key" && t.Fmt == "informal" && t.LRules {
-		return "informal key with list rules"
 	}
 	return ""
 }
@@ -172,6 +172,23 @@ func runC07(cfg *vh.Config) error {
 		Type:   "c07case",
 		Check:  "c07_check",
 	}
+	ff := &vh.CasesFile{
+		Header: "From Coq Require Import String List NArith ZArith.\nFrom J5V.model Require Import Entity.\nFrom J5V.model Require Import BclLexer CmpbFields CmpbDecls CmpbFront CmpbWalker CmpbPackage CmpbEntity CmpbFrontCorr.",
+		Type:   "c07fcase",
+		Check:  "c07f_check",
+	}
+	var frontRecs []vh.CaseRec
+	// conversion errors of a located file: model of sourcewalk child / GetPos + addError against the real positions
+	convPos := func(caseNo int, stream string, in any, src string, lcoq string, pos []cmpb.Pos) {
+		fo := observeFront(src)
+		sp, all := errSpans(pos)
+		if !fo.HasFile || !all {
+			return
+		}
+		ff.Terms = append(ff.Terms, fmt.Sprintf("CConvPos %s %s %s", locTreeCoq(fo.Locs), lcoq, spansCoq(sp)))
+		frontRecs = append(frontRecs, vh.CaseRec{Case: caseNo, Stream: stream + "-pos", Input: in, Impl: map[string]any{"positions": pos}})
+		res.Count("convpos")
+	}
 	distinct := vh.Distinct{}
 	caseNo := 0
 	var corpus []map[string]string // valid bundles, seeds of the mutation stream
@@ -212,6 +229,9 @@ func runC07(cfg *vh.Config) error {
 				res.Fail(vh.Failure{Case: caseNo, Stream: "iso", Sig: "C07 documented language not accepted: " + gap, Clause: "every package within the documented language is accepted", Input: in, Got: o.ErrText})
 			}
 			checkPositions(res, caseNo, "iso", "iso conversion error", o.Pos, content, mainFile, in)
+			if pi%3 == int(cfg.Seed%3) || cfg.Tier == "thorough" {
+				convPos(caseNo, "iso", in, content[mainFile], fmt.Sprintf("[LObject %s false [%s]]", pathCoq(declPath(0, "object")), lpropCoq(p, declPath(0, "object"), 0)), o.Pos)
+			}
 		case "VOk":
 			if len(corpus) < 400 {
 				corpus = append(corpus, content)
@@ -287,17 +307,18 @@ func runC07(cfg *vh.Config) error {
 			res.Count("abs_" + o.Verdict)
 			switch o.Verdict {
 			case "VPanic":
-				if !a.ListReq { // the list_request panic is judged (and recorded) in the declaration stream
-					res.Fail(vh.Failure{Case: caseNo, Stream: "abs", Sig: fmt.Sprintf("C07 %s alone in a file: panic %s", absKind(a.Kind), errClass(o.ErrText)), Clause: "never panics", Input: in, Got: o.ErrText})
-				}
+				res.Fail(vh.Failure{Case: caseNo, Stream: "abs", Sig: fmt.Sprintf("C07 %s alone in a file: panic %s", absKind(a.Kind), errClass(o.ErrText)), Clause: "never panics", Input: in, Got: o.ErrText})
 			case "VOther":
 				res.Fail(vh.Failure{Case: caseNo, Stream: "abs", Sig: fmt.Sprintf("C07 %s alone in a file: %s", absKind(a.Kind), errClass(o.ErrText)), Clause: "generated file parses (harness expectation) / no hang", Input: in, Got: o.ErrText})
 			case "VLinkErr":
 				res.Fail(vh.Failure{Case: caseNo, Stream: "abs", Sig: fmt.Sprintf("C07 %s alone in a file: link error in isolation", absKind(a.Kind)), Clause: "accepted and links without depending on unrelated declarations", Input: in, Got: o.ErrText})
 			case "VConvErr":
-				if a.InLang {
+				if a.InLang && a.ListReq {
+					res.Fail(vh.Failure{Case: caseNo, Stream: "abs", Sig: sigListRequest, Clause: "every package within the documented language is accepted", Input: in, Got: o.ErrText})
+				} else if a.InLang {
 					res.Fail(vh.Failure{Case: caseNo, Stream: "abs", Sig: fmt.Sprintf("C07 %s of the documented language rejected (%s)", absKind(a.Kind), errClass(o.ErrText)), Clause: "every package within the documented language is accepted", Input: in, Got: o.ErrText})
 				}
+				checkPositions(res, caseNo, "abs", "declaration conversion error", o.Pos, content, mainFile, in)
 			case "VOk":
 				if len(corpus) < 500 {
 					corpus = append(corpus, content)
@@ -323,11 +344,12 @@ func runC07(cfg *vh.Config) error {
 			Files   map[string]string
 			InLang  bool
 			ListReq bool
+			LCoq    string
 		}
 		fcs := make([]fileCase, nF)
 		for i := range fcs {
-			c, f, l, lr := genFile(rF, pool)
-			fcs[i] = fileCase{c, f, l, lr}
+			c, f, l, lr, lc := genFile(rF, pool)
+			fcs[i] = fileCase{c, f, l, lr, lc}
 		}
 		type fobs struct {
 			Verdict              string
@@ -378,18 +400,19 @@ func runC07(cfg *vh.Config) error {
 			res.Count("file_" + o.Verdict)
 			switch o.Verdict {
 			case "VPanic":
-				if !fc.ListReq {
-					res.Fail(vh.Failure{Case: caseNo, Stream: "file", Sig: "C07 file of several declarations: panic " + errClass(o.ErrText), Clause: "never panics", Input: in, Got: o.ErrText})
-				}
+				res.Fail(vh.Failure{Case: caseNo, Stream: "file", Sig: "C07 file of several declarations: panic " + errClass(o.ErrText), Clause: "never panics", Input: in, Got: o.ErrText})
 			case "VOther":
 				res.Fail(vh.Failure{Case: caseNo, Stream: "file", Sig: "C07 file of several declarations: " + errClass(o.ErrText), Clause: "generated file parses (harness expectation) / no hang", Input: in, Got: o.ErrText})
 			case "VLinkErr":
 				res.Fail(vh.Failure{Case: caseNo, Stream: "file", Sig: "C07 file of several declarations: link error (" + errClass(o.ErrText) + ")", Clause: "accepted and links", Input: in, Got: o.ErrText})
 			case "VConvErr":
-				if fc.InLang && !fc.ListReq {
+				if fc.InLang && fc.ListReq {
+					res.Fail(vh.Failure{Case: caseNo, Stream: "file", Sig: sigListRequest, Clause: "every package within the documented language is accepted", Input: in, Got: o.ErrText})
+				} else if fc.InLang {
 					res.Fail(vh.Failure{Case: caseNo, Stream: "file", Sig: "C07 file of in-language declarations rejected (" + errClass(o.ErrText) + ")", Clause: "every package within the documented language is accepted", Input: in, Got: o.ErrText})
 				}
 				checkPositions(res, caseNo, "file", "file conversion error", o.Pos, fc.Files, mainFile, in)
+				convPos(caseNo, "file", in, fc.Files[mainFile], fc.LCoq, o.Pos)
 			}
 			cf.Terms = append(cf.Terms, fmt.Sprintf("CFile %s %q %s %s %s %s", fc.Coq, refFilePath, o.Verdict, coqStrList(o.Main), coqStrList(o.Service), coqStrList(o.Topic)))
 			res.Cases = append(res.Cases, vh.CaseRec{Case: caseNo, Stream: "file", Input: in, Impl: o})
@@ -434,7 +457,15 @@ func runC07(cfg *vh.Config) error {
 			if strings.HasPrefix(c.Err.Error(), "resolve file") {
 				kind = "link error in isolation"
 			}
-			res.Fail(vh.Failure{Case: caseNo, Stream: "decl", Sig: fmt.Sprintf("C07 decl %s: %s (%s)", d.Name, kind, truncate(strings.TrimPrefix(errClass(c.Err.Error()), "loadPackage I: loadLocalPackage I: "), 60)), Clause: "every package within the documented language is accepted and links", Input: in, Got: c.Err.Error()})
+			sig := fmt.Sprintf("C07 decl %s: %s (%s)", d.Name, kind, truncate(strings.TrimPrefix(errClass(c.Err.Error()), "loadPackage I: loadLocalPackage I: "), 60))
+			if strings.Contains(c.Err.Error(), "listRequest is not supported on a method") {
+				sig = sigListRequest
+			}
+			if strings.Contains(c.Err.Error(), "TimestampField_Rules") && strings.Contains(c.Err.Error(), "unsupported scalar type *schema_j5pb.Field_Timestamp") {
+				sig = "C07 documented language not accepted: timestamp rules minimum / maximum (unsupported scalar type)"
+			}
+			res.Fail(vh.Failure{Case: caseNo, Stream: "decl", Sig: sig, Clause: "every package within the documented language is accepted and links", Input: in, Got: c.Err.Error()})
+			checkPositions(res, caseNo, "decl", "declaration "+d.Name, cmpb.Positions(c.Err), d.Files, d.Main, in)
 		default:
 			res.Count("decl_ok")
 			corpus = append(corpus, d.Files)
@@ -453,6 +484,10 @@ func runC07(cfg *vh.Config) error {
 	// ---- stream 3: malformed inputs (random bytes, byte flips, token mutations) through Compile and LintFile
 	rMut := cfg.R.Fork("mut")
 	nMut := cfg.Scale(350, 12000)
+	if len(corpus) == 0 {
+		// nothing compiled (every case above failed and was reported): mutate a fixed seed so the run completes
+		corpus = append(corpus, map[string]string{mainFile: "package foo.v1\n\nobject Foo {\n  field f string\n}\n"})
+	}
 	mutContents := make([]map[string]string, nMut)
 	mutHow := make([]string, nMut)
 	for i := 0; i < nMut; i++ {
@@ -496,7 +531,11 @@ func runC07(cfg *vh.Config) error {
 			checkPositions(res, caseNo, "mut", "malformed input (lint returned error)", cmpb.Positions(l.Err), content, mainFile, in)
 		case len(l.Pos) > 0:
 			res.Count("lint_reported")
-			checkPositions(res, caseNo, "mut", "malformed input (lint report)", l.Pos, content, mainFile, in)
+			// a report on a package that COMPILES is a warning, not an error of a rejected package: the property
+			// says nothing about where warnings point (audit of known findings L75)
+			if c.Err != nil {
+				checkPositions(res, caseNo, "mut", "malformed input (lint report)", l.Pos, content, mainFile, in)
+			}
 		default:
 			res.Count("lint_clean")
 		}
@@ -555,7 +594,7 @@ func runC07(cfg *vh.Config) error {
 			if l.Panic == nil && !l.TimedOut && li < len(j5s) {
 				if l.Err != nil {
 					checkPositions(res, caseNo, "sem", "semantic error "+d.Name+" (LintFile returned error)", cmpb.Positions(l.Err), d.Files, j5s[li], in)
-				} else if len(l.Pos) > 0 {
+				} else if len(l.Pos) > 0 && c.Err != nil {
 					checkPositions(res, caseNo, "sem", "semantic error "+d.Name+" (LintFile report)", l.Pos, d.Files, j5s[li], in)
 				}
 			}
@@ -569,7 +608,7 @@ func runC07(cfg *vh.Config) error {
 		if la.Panic == nil && !la.TimedOut {
 			if la.Err != nil {
 				checkPositions(res, caseNo, "sem", "semantic error "+d.Name+" (LintAll returned error)", cmpb.Positions(la.Err), d.Files, d.Main, in)
-			} else if len(la.Pos) > 0 {
+			} else if len(la.Pos) > 0 && c.Err != nil {
 				checkPositions(res, caseNo, "sem", "semantic error "+d.Name+" (LintAll report)", la.Pos, d.Files, d.Main, in)
 			}
 		}
@@ -577,6 +616,66 @@ func runC07(cfg *vh.Config) error {
 			res.Fail(vh.Failure{Case: caseNo, Stream: "sem", Sig: fmt.Sprintf("C07 semantic error %s: LintAll panic %s", d.Name, errClass(fmt.Sprint(la.Panic))), Clause: "never panics (lint path)", Input: in, Got: fmt.Sprint(la.Panic)})
 		}
 		caseNo++
+	}
+
+	// ---- stream 5: the front end alone (BCL parser + schema walker) on valid, malformed, semantic-error and
+	// walker-directed texts; position contract against C11's parser model; coverage of the unmodelled walker
+	{
+		var texts, how []string
+		seen := map[string]bool{}
+		add := func(t, h string) {
+			if !seen[t] {
+				seen[t] = true
+				texts = append(texts, t)
+				how = append(how, h)
+			}
+		}
+		for _, t := range walkerInputs() {
+			add(t, "walker-directed")
+		}
+		nValid := cfg.Scale(40, 400)
+		for i, c := range corpus {
+			if i >= nValid {
+				break
+			}
+			add(c[mainFile], "valid")
+		}
+		for _, d := range decls {
+			for _, fn := range sortedFileNames(d.Files) {
+				if strings.HasSuffix(fn, ".j5s") {
+					add(d.Files[fn], "declaration matrix "+d.Name)
+				}
+			}
+		}
+		for _, d := range sems {
+			for _, fn := range sortedFileNames(d.Files) {
+				if strings.HasSuffix(fn, ".j5s") {
+					add(d.Files[fn], "semantic error "+d.Name)
+				}
+			}
+		}
+		nMutFront := cfg.Scale(110, 3000)
+		for i := 0; i < nMut && i < nMutFront; i++ {
+			add(mutContents[i][mainFile], "malformed: "+mutHow[i])
+		}
+		for _, t := range texts {
+			distinct.Add("front:" + t)
+		}
+		ft, fr := runFront(cfg, res, &caseNo, texts, how)
+		ff.Terms = append(ff.Terms, ft...)
+		frontRecs = append(frontRecs, fr...)
+	}
+	// ---- stream 7: entity declarations against model/CmpbEntity.v (expansion by the ent family's model)
+	{
+		et, er := runEntities(cfg, res, &caseNo)
+		ff.Terms = append(ff.Terms, et...)
+		frontRecs = append(frontRecs, er...)
+	}
+	// ---- stream 6: package loading (import graphs with missing packages and cycles) against model/CmpbPackage.v
+	{
+		pt, pr := runPkgLoad(cfg, res, &caseNo)
+		ff.Terms = append(ff.Terms, pt...)
+		frontRecs = append(frontRecs, pr...)
 	}
 
 	res.Evaluations = caseNo
@@ -590,7 +689,17 @@ func runC07(cfg *vh.Config) error {
 		res.Cases[i].Shard = fmt.Sprintf("cases_%d", i/per)
 		res.Cases[i].Pos = i % per
 	}
-	res.Shards = shards
+	const perFront = 120
+	fshards, err := ff.WriteShards(cfg.Out, "front", perFront)
+	if err != nil {
+		return err
+	}
+	for i := range frontRecs {
+		frontRecs[i].Shard = fmt.Sprintf("front_%d", i/perFront)
+		frontRecs[i].Pos = i % perFront
+	}
+	res.Cases = append(res.Cases, frontRecs...)
+	res.Shards = append(shards, fshards...)
 	return res.Write(cfg.Out)
 }
 
